@@ -525,6 +525,18 @@ func runJobs(jobs []job, workers int, repo, hdir, known, tier string) []*WorkerR
 	return results
 }
 
+// solverKind: z3 5.1.0 (z3-new) by default (about twice as fast as 4.8.12 on
+// these incremental streams); bounds may select another back end.
+func solverKind(b map[string]int) string {
+	switch b["solver"] {
+	case 1:
+		return "z3"
+	case 2:
+		return "cvc5"
+	}
+	return "z3-new"
+}
+
 func cmdServe(args []string) int {
 	fs := flag.NewFlagSet("serve", flag.ExitOnError)
 	repo := fs.String("repo", "/repo", "")
@@ -558,7 +570,7 @@ func cmdServe(args []string) int {
 			if v, ok := j.Bounds["budget_s"]; ok {
 				budget = time.Duration(v) * time.Second
 			}
-			res = runWorker(p, loadS, j.Harness, j.Bounds, "z3", tmo, budget, known, 0)
+			res = runWorker(p, loadS, j.Harness, j.Bounds, solverKind(j.Bounds), tmo, budget, known, 0)
 		}
 		data, _ := json.Marshal(res)
 		w.Write(data)
